@@ -5,6 +5,7 @@ from arrays import mk_universe
 import heapdrv
 
 ID = "C13"
+THOROUGH_ROUNDS = 2      # rounds of generate() in the thorough tier (new random draws each round)
 COQ_MODULE = "Corr.C13"
 COQ_CHECK = "C13.check"
 COQ_CASE_TYPE = "C13.case"
